@@ -145,28 +145,28 @@ Qed.
 
 Lemma added_set_odev s s' e t v : added s s' e t -> added s (set_odev s' (upd (odev s') e v)) e t.
 Proof.
-  intros [A1 A2 A3 A4 A5 A6 A7 A8 A9 A10 A11 A12 A13 A14 A15]. constructor; simpl_st; try assumption.
-  intros x Hx. rewrite upd_other by exact Hx. now apply A13.
+  intros [A1 A2 A3 A4 A5 A6 A7 A8 A9 A10 A11 A12 A13 A14 A15 A16]. constructor; simpl_st; try assumption.
+  intros x Hx. rewrite upd_other by exact Hx. now apply A14.
 Qed.
 Lemma added_set_obuf s s' e t v : added s s' e t -> added s (set_obuf s' (upd (obuf s') e v)) e t.
 Proof.
-  intros [A1 A2 A3 A4 A5 A6 A7 A8 A9 A10 A11 A12 A13 A14 A15]. constructor; simpl_st; try assumption.
-  intros x Hx. rewrite upd_other by exact Hx. now apply A13.
+  intros [A1 A2 A3 A4 A5 A6 A7 A8 A9 A10 A11 A12 A13 A14 A15 A16]. constructor; simpl_st; try assumption.
+  intros x Hx. rewrite upd_other by exact Hx. now apply A14.
 Qed.
 Lemma added_set_ginner s s' e t v : added s s' e t -> added s (set_ginner s' (upd (ginner s') e v)) e t.
 Proof.
-  intros [A1 A2 A3 A4 A5 A6 A7 A8 A9 A10 A11 A12 A13 A14 A15]. constructor; simpl_st; try assumption.
-  intros x Hx. rewrite upd_other by exact Hx. now apply A13.
+  intros [A1 A2 A3 A4 A5 A6 A7 A8 A9 A10 A11 A12 A13 A14 A15 A16]. constructor; simpl_st; try assumption.
+  intros x Hx. rewrite upd_other by exact Hx. now apply A14.
 Qed.
 Lemma added_set_ocur s s' e t v : added s s' e t -> added s (set_ocur s' (upd (ocur s') e v)) e t.
 Proof.
-  intros [A1 A2 A3 A4 A5 A6 A7 A8 A9 A10 A11 A12 A13 A14 A15]. constructor; simpl_st; try assumption.
-  intros x Hx. rewrite upd_other by exact Hx. now apply A13.
+  intros [A1 A2 A3 A4 A5 A6 A7 A8 A9 A10 A11 A12 A13 A14 A15 A16]. constructor; simpl_st; try assumption.
+  intros x Hx. rewrite upd_other by exact Hx. now apply A14.
 Qed.
 Lemma added_set_moff s s' e t v : added s s' e t -> added s (set_moff s' v) e t.
-Proof. intros [A1 A2 A3 A4 A5 A6 A7 A8 A9 A10 A11 A12 A13 A14 A15]. constructor; simpl_st; assumption. Qed.
+Proof. intros [A1 A2 A3 A4 A5 A6 A7 A8 A9 A10 A11 A12 A13 A14 A15 A16]. constructor; simpl_st; assumption. Qed.
 Lemma added_set_osize s s' e t v : added s s' e t -> added s (set_osize s' v) e t.
-Proof. intros [A1 A2 A3 A4 A5 A6 A7 A8 A9 A10 A11 A12 A13 A14 A15]. constructor; simpl_st; assumption. Qed.
+Proof. intros [A1 A2 A3 A4 A5 A6 A7 A8 A9 A10 A11 A12 A13 A14 A15 A16]. constructor; simpl_st; assumption. Qed.
 
 Lemma added_grow s s' e t : added s s' e t -> grow s s'.
 Proof.
@@ -229,19 +229,23 @@ Lemma inv_unW X W D T G s o :
   (forall b, alive s o = true -> oinner s o = Some b ->
      tagof s o = TO KPool /\ alive s b = true /\ tagof s b = TO KBuf /\ ginner s b = true /\ odev s b = odev s o) ->
   (alive s o = true -> tagof s o = TO KBuf -> ginner s o = true -> exists p, alive s p = true /\ oinner s p = Some o) ->
+  (alive s o = true -> tagof s o = TO KPool -> forall m, In m (G o SMem) -> In m (pres s o)) ->
   (alive s o = true -> tagof s o = TO KDev ->
      alive s (ocur s o) = true /\ tagof s (ocur s o) = TH KStr /\ ~ In (ocur s o) T /\
      (forall v, vars s v <> Some (ocur s o)) /\ (forall st, hptr s (ocur s o) = Some st -> odev s st = Some o)) ->
+  (alive s o = true -> tagof s o = TO KPool -> (pres s o <> [] \/ pslots s o <> 0) -> oinner s o <> None) ->
   inv X W D T G s.
 Proof.
-  intros Hi Hnw Hl Hin Hio Hc.
+  intros Hi Hnw Hl Hin Hio Hpr Hc Hpb.
   destruct Hi as [Aheap Amem1 Amem2 Aown Afresh Atag Adead Ainner Aitag Ainj Aiown Agin Apres Adev Abuf Acur Acurinj
-                  Ahand Avars Avinj AT ATnd Alive Alognd Alog AD Acs].
+                  Ahand Avars Avinj AT ATnd Alive Alognd Alog AD Acs Apb].
   constructor; try assumption.
   - intros p b Ha Hw Hb. destruct (Nat.eq_dec p o) as [->|Hne]; [now apply Hin|].
     apply Ainner; try assumption. intros [E|H]; [congruence|contradiction].
   - intros b Ha Ht Hg Hw. destruct (Nat.eq_dec b o) as [->|Hne]; [now apply Hio|].
     apply Aiown; try assumption. intros [E|H]; [congruence|contradiction].
+  - intros p m Ha Ht Hw Hm. destruct (Nat.eq_dec p o) as [->|Hne]; [now apply Hpr|].
+    apply Apres; try assumption. intros [E|H]; [congruence|contradiction].
   - intros d Ha Ht Hw. destruct (Nat.eq_dec d o) as [->|Hne].
     + destruct (Hc Ha Ht) as (C1 & C2 & C3 & C4 & C5). tauto.
     + apply Acur; try assumption. intros [E|H]; [congruence|contradiction].
@@ -250,6 +254,8 @@ Proof.
   - intros d st Ha Ht Hw Hp. destruct (Nat.eq_dec d o) as [->|Hne].
     + destruct (Hc Ha Ht) as (C1 & C2 & C3 & C4 & C5). now apply C5.
     + apply Acs; try assumption. intros [E|H]; [congruence|contradiction].
+  - intros p Ha Ht Hw. destruct (Nat.eq_dec p o) as [->|Hne]; [now apply Hpb|].
+    apply Apb; try assumption. intros [E|H]; [congruence|contradiction].
 Qed.
 
 End O.
